@@ -561,7 +561,6 @@ func c11(r *core.Run) {
 	r.Floor("C11.NOESCAPE", "returns of signature pointers from the JSON store", nGet, 3)
 }
 
-
 // liveAccess reports (as a short description, "" if none) whether f or a store function it calls reads
 // the database through the live *pebble.DB handle (Get / NewIter / the iterator helper).
 func liveAccess(p *core.Program, f *ssa.Function, seen map[*ssa.Function]bool) string {
